@@ -648,14 +648,34 @@ def _fact_lin(t, pol, out, base):
                 out.append(-d - 1)
 
 
-def bounds(v, facts, depth=0, _simple_only=False):
+_FL_CACHE = {}
+
+
+def _fact_lins_cached(facts, simple_only):
+    key = (facts if isinstance(facts, tuple) else tuple(facts), simple_only)
+    try:
+        r = _FL_CACHE.get(key)
+    except TypeError:
+        return fact_lins(facts, simple_only)
+    if r is None:
+        if len(_FL_CACHE) > 4000:
+            _FL_CACHE.clear()
+        _FL_CACHE[key] = ()             # a re-entrant request (through a truth-tested integer) sees no facts: no cycle
+        r = tuple(fact_lins(facts, simple_only))
+        _FL_CACHE[key] = r
+    return r
+
+
+def bounds(v, facts, depth=0, _simple_only=False, _fl=None):
     """(lower, upper) bounds of a linear form proved from the facts; None = not proved"""
     v = lin(v)
     if v.is_const():
         return v.c, v.c
-    if _simple_only:
-        facts = tuple(f for f in facts if _simple_fact(f[0]))
-    fl = fact_lins(facts, _simple_only) if facts else []
+    if _fl is None:
+        if _simple_only:
+            facts = tuple(f for f in facts if _simple_fact(f[0]))
+        _fl = _fact_lins_cached(tuple(facts), _simple_only) if facts else ()
+    fl = _fl
     lo = hi = None
     # direct: v = g + c  for a fact g >= 0   /   v = -g + c
     for g in fl:
@@ -685,7 +705,7 @@ def bounds(v, facts, depth=0, _simple_only=False):
             if isinstance(at, tuple) and at[0] in ("min", "max"):
                 rest = v - Lin({at: coef})
                 for x in at[1]:
-                    rlo, rhi = bounds(rest + x.scale(coef), facts, depth + 1)
+                    rlo, rhi = bounds(rest + x.scale(coef), facts, depth + 1, _fl=fl)
                     upper = (at[0] == "min") == (coef > 0)      # coef*min(xs) <= coef*x  for coef > 0
                     if upper and rhi is not None:
                         hi = rhi if hi is None else min(hi, rhi)
@@ -697,7 +717,7 @@ def bounds(v, facts, depth=0, _simple_only=False):
             if isinstance(at, tuple) and at[0] == "fd":
                 k = at[2]
                 rest = v - Lin({at: coef}) + at[1].scale(coef / k)      # replace coef*fd(L,k) by (coef/k)*(L - md)
-                rlo, rhi = bounds(rest, facts, depth + 1)
+                rlo, rhi = bounds(rest, facts, depth + 1, _fl=fl)
                 q = -coef / k                                            # ... + q * md,  md in [0, k-1]
                 mlo, mhi = (0, q * (k - 1)) if q >= 0 else (q * (k - 1), 0)
                 if rlo is not None:
@@ -708,6 +728,7 @@ def bounds(v, facts, depth=0, _simple_only=False):
 
 
 def atom_bounds(at, facts, fl, depth):
+    import math
     lo = hi = None
     if nonneg_atom(at):
         lo = Fraction(0)
@@ -717,25 +738,21 @@ def atom_bounds(at, facts, fl, depth):
             a = g.t[at]
             b = -g.c / a
             if a > 0:
-                import math
                 b = Fraction(math.ceil(b))
                 lo = b if lo is None else max(lo, b)
             else:
-                import math
                 b = Fraction(math.floor(b))
                 hi = b if hi is None else min(hi, b)
     if isinstance(at, tuple) and at and at[0] == "fd" and depth < 3:
-        l2, h2 = bounds(at[1], facts, depth + 1)
+        l2, h2 = bounds(at[1], facts, depth + 1, _fl=fl)
         if l2 is not None:
-            import math
             x = Fraction(math.floor(l2 / at[2]))
             lo = x if lo is None else max(lo, x)
         if h2 is not None:
-            import math
             x = Fraction(math.floor(h2 / at[2]))
             hi = x if hi is None else min(hi, x)
     if isinstance(at, tuple) and at and at[0] in ("min", "max") and depth < 3:
-        bs = [bounds(a, facts, depth + 1) for a in at[1]]
+        bs = [bounds(a, facts, depth + 1, _fl=fl) for a in at[1]]
         los, his = [b[0] for b in bs], [b[1] for b in bs]
         if at[0] == "min":
             if all(x is not None for x in los):
